@@ -10,6 +10,7 @@ import wave
 
 from .. import common as C
 from .tok import exc_code
+from ..py2coq import misctie
 
 FORMATS = [(1, 1), (2, 1), (1, 2), (2, 2), (4, 1), (4, 3)]
 
@@ -136,6 +137,9 @@ def chk_reads(data, bps, ops, outs, restart=True, filelike=False, sr=None):
             else:
                 exp = list(data[pos:pos + want * bps])
                 if r != [2, exp]:
+                    if len(exp) > 64:
+                        return "read(%r) at sample %d returned %s, expected exactly %d samples (%d bytes)" % (
+                            o[1], pos // bps, ("%d bytes (%s samples)" % (len(r[1]), len(r[1]) / bps)) if r[0] == 2 else repr(r)[:80], want, len(exp))
                     return "read(%r) at sample %d returned %r, expected exactly %d samples %r" % (o[1], pos // bps, r, want, exp)
                 pos += want * bps
         elif k == 4:
@@ -191,11 +195,15 @@ def run(prop, tier):
     res = C.Result(prop, tier)
     proof = C.proof_step(["Props/C11.v"])
     proof["trusted"] = [
-        "model IO/Source.v written by hand from io.py (BufferAudioSource, FileAudioSource family); tied by correspondence (seeded random + exhaustive short sequences), not by translation",
+        "model IO/Source.v written by hand from io.py; BufferAudioSource.read / position (get, set) / position_ms (get) are translated from /repo on every run (harness/py2coq/misc.py, group buf) and proved equal to bstep for all states and arguments (TieBuf.v); everything else (seconds / ms setters, file and stdin sources) is tied by correspondence (seeded random + exhaustive short sequences)",
         "extraction (ExtrOcamlBasic only) + OCaml driver, cross-checked by vm_compute on a sample",
         "file-system, wave module and sys.stdin replacement are exercised, not modelled; PyAudioSource cannot be run here",
     ]
     C.import_auditok()
+    tie = misctie.tie_group("buf")
+    proof["tie_obligations"] = tie["obligations"]
+    if not tie["ok"]:
+        proof["undischarged"] = tie["obligations"]
     quick = tier == "quick"
     r = C.rng("C11")
     cases, impl, meta = [], [], []
@@ -262,6 +270,23 @@ def run(prop, tier):
                     wv = chk_reads(data, w * ch, ops_k, outs, restart=(kind != "stdin"), filelike=True)
                     if wv:
                         viol = {"what": wv, **meta[-1], "impl_outputs": outs}
+        # ---- single requests larger than any plausible internal buffer (judged by the read contract alone)
+        big_n, bw, bch = (300000, 2, 3) if quick else (700000, 2, 3)
+        big = bytes((i * 7 + (i >> 9)) % 251 for i in range(big_n * bw * bch))
+        for kind in ("raw", "wav", "buffer"):
+            path = os.path.join(tmpd, "big.%s" % kind)
+            if kind == "raw":
+                open(path, "wb").write(big)
+            elif kind == "wav":
+                with wave.open(path, "wb") as f:
+                    f.setframerate(16000); f.setsampwidth(bw); f.setnchannels(bch); f.writeframes(big)
+            ops = [[0], [3, [200000]], [3, [7]], [3, [big_n]], [3, [1]]]
+            outs = run_filelike(kind, path, big, 16000, bw, bch, ops) if kind != "buffer" else run_buffer(big, 16000, bw, bch, ops)
+            if viol is None:
+                wv = chk_reads(big, bw * bch, ops, outs, filelike=(kind != "buffer"), sr=16000)
+                if wv:
+                    viol = {"what": wv[:300] + ("..." if len(wv) > 300 else ""), "source": kind, "samples": big_n, "format(sr,sw,ch)": [16000, bw, bch], "ops": ops}
+        res.notes["large_request_samples"] = big_n
     finally:
         shutil.rmtree(tmpd, ignore_errors=True)
     outs_m = C.model_eval(cases)
@@ -277,11 +302,16 @@ def run(prop, tier):
     res.coverage.update({"evaluations": len(cases), "distinct_nontrivial": len({C.dumps([c, o]) for c, o in zip(cases, outs_m) if any(x[0] == 2 for x in o)}),
                          "rule": "operation sequences (open/close/rewind/read(n|None|<0)/position get and set in samples, seconds, ms) on buffer sources: seeded random + exhaustive sequences of length <= %d over an 11-letter alphabet; open/close/read sequences on raw files, wav files and a replaced stdin built from the same audio; non-trivial = distinct sequence returning at least one data chunk" % (3 if quick else 4),
                          "samples": [{"case": meta[11], "model_outputs": outs_m[11]}, {"case": meta[-2], "model_outputs": outs_m[-2]}],
-                         "vm_compute_crosschecked": vm, "correspondence_mismatches": len(mism), "by_source_kind": kinds, "operation_histogram": opk})
+                         "vm_compute_crosschecked": vm, "correspondence_mismatches": len(mism), "tie_translation": tie["detail"][:300], "by_source_kind": kinds, "operation_histogram": opk})
     if viol:
         res.add_violation(viol["what"], viol)
-    elif mism:
-        m, i, o = mism[0]
-        res.add_violation("model and implementation differ on %r (impl %r, model %r); the read-contract oracle found no failing input" % (m, i, o),
-                          {"no_longer_checks": "correspondence IO/Source.v bstep/fstep (ops 20-21)", "case": m, "impl": i, "model": o}, no_input=True)
+    elif mism or not tie["ok"]:
+        what = []
+        if not tie["ok"]:
+            what.append("translation tie broken: " + tie["detail"][:500])
+        if mism:
+            what.append("model and implementation differ on %r (impl %r, model %r)" % mism[0])
+        res.add_violation("; ".join(what) + "; the read-contract oracle found no failing input",
+                          {"no_longer_checks": ("TieBuf.v (BufferAudioSource methods) " if not tie["ok"] else "") + ("correspondence IO/Source.v bstep/fstep (ops 20-21)" if mism else ""),
+                           "tie_detail": tie["detail"], "first_mismatch": [list(mism[0])] if mism else []}, no_input=True)
     return res.finish(proof)
